@@ -403,7 +403,7 @@ def _explore(ctx, keys):
         ls.add((lo + hi) // 2)
         for d in (-1, 0, 1):
             ls.add(((tr + w1 * NPS) // NPD + d) * NPD)
-        pick = rng.sample(sorted(ls), min(len(ls), 8 if not ctx.thorough else 12))
+        pick = rng.sample(sorted(ls), min(len(ls), 8))
         if w1 > w0:
             # skipped local values whose forward-shifted result is exactly a local midnight (day carry at the boundary)
             gap = (w1 - w0) * NPS
